@@ -758,7 +758,9 @@ impl<Front: SocketHandler + std::fmt::Debug, L: ListenerHandler + L7ListenerHand
             ),
             Connection::H2(c) => {
                 let (er_gid, er_amount) = match c.expect_read {
-                    Some((h2::H2StreamId::Other { gid, .. }, amount)) => (gid as i64, amount as i64),
+                    Some((h2::H2StreamId::Other { gid, .. }, amount)) => {
+                        (gid as i64, amount as i64)
+                    }
                     Some((h2::H2StreamId::Zero, amount)) => (-1, amount as i64),
                     None => (-2, 0),
                 };
@@ -1663,11 +1665,15 @@ impl<Front: SocketHandler + std::fmt::Debug, L: ListenerHandler + L7ListenerHand
                 // the requests in flight on the other backend connections of this
                 // session: they have their own timers. Closing the session here
                 // would cut them without an answer.
-                let others_in_flight = self.context.streams.iter().any(|stream| match stream.state {
-                    StreamState::Link | StreamState::Linked(_) => true,
-                    StreamState::Unlinked => !stream.back.is_completed(),
-                    StreamState::Idle | StreamState::Recycle => false,
-                });
+                let others_in_flight =
+                    self.context
+                        .streams
+                        .iter()
+                        .any(|stream| match stream.state {
+                            StreamState::Link | StreamState::Linked(_) => true,
+                            StreamState::Unlinked => !stream.back.is_completed(),
+                            StreamState::Idle | StreamState::Recycle => false,
+                        });
                 if others_in_flight {
                     backend.timeout_container().set(token);
                     return StateResult::Continue;
